@@ -268,6 +268,35 @@ def nikolaev(ctx):
                 ok = ok and o and n > 0
             ctx.check(ok, rid, SCQ + "enqueue<Finalizable>#fails-when-finalized", "finalizable enqueue returns false iff the ticket carries the finalized bit",
                       "a finalizable enqueue does not fail on a finalized queue", fn.where(), fn=fn)
+    rid3 = "SCQ.settle-slot"
+    ctx.rule(rid3, "SCQ dequeue: after taking a head ticket the dequeuer leaves its slot only after settling it: consuming the value, stamping the slot "
+                   "with its cycle by CAS, finding it already stamped (entry == entry_new), or finding it in a cycle that is not older than its own; only then it "
+                   "may report empty or take another ticket")
+    for fn in flow._shapes(ctx, SCQ + "dequeue"):
+        F = flow.find(fn, {"k": "call", "field": "nikolaev_scq::_head", "op": "fetch_add"})
+        if not F:
+            ctx.bad(rid3, SCQ + "dequeue#ticket", "no head ticket (fetch_add on _head)", fn.where(), fn=fn)
+            continue
+
+        def lic(f_, nid):
+            a = f_.atomic(nid)
+            if a and a["kind"] == "cas" and a["field"].endswith("_data[]"):
+                return True
+            x = f_.expr(nid)
+            nn = f_.nodes[nid]
+            if nn["k"] == "bin" and nn["op"] == "==" and "entry_new" in x and "entry" in x:
+                return True
+            if nn["k"] == "bin" and nn["op"] == "<" and "entry_cycle" in x and "head_cycle" in x:
+                return False
+            return None
+        targets = [F[0]] + [r for r in flow.find(fn, {"k": "return"}) if fn.kids(r) and fn.nodes[fn.kids(r)[0]].get("v") == 0 and fn.event_reaches(F[0], r)]
+        for t in targets:
+            ok, path, n = flow.between_only_via(fn, F[0], t, lic)
+            what = "takes another ticket" if t == F[0] else "reports empty (line %d)" % fn.nodes[t].get("l", 0)
+            ctx.check(ok and n >= 3, rid3, SCQ + "dequeue#settled-before-" + ("next-ticket" if t == F[0] else "empty@%d" % targets.index(t)),
+                      "slot settled before the dequeuer " + what,
+                      "the dequeuer %s on a path where its slot was neither consumed, stamped with its cycle, nor found settled: an enqueuer that obtains the same ticket "
+                      "deposits its index behind head and the element (or free slot) is lost" % what, fn.where(t), fn=fn, path=flow.describe_path(fn, path))
     Q = X + "nikolaev_queue::"
     rid2 = "NQ.protocol"
     ctx.rule(rid2, "nikolaev_queue node protocol: construct the element before publishing its index with a finalizable enqueue; roll back (move back, "
